@@ -908,6 +908,10 @@ func (c *Conn) handleStartTLS() {
 	// This is different from just calling reset() since we want the Backend to
 	// be able to see the information about TLS connection in the
 	// ConnectionState object passed to it.
+	//
+	// A chunked transfer that is still open belongs to the old session: make
+	// its delivery fail and wait for it before the session is logged out.
+	c.abortBdat()
 	if session := c.Session(); session != nil {
 		session.Logout()
 		c.setSession(nil)
